@@ -7,6 +7,7 @@ import (
 	"errors"
 	"fmt"
 	"io"
+	"io/fs"
 	"os"
 	"path/filepath"
 	"testing"
@@ -26,9 +27,22 @@ type c05Case struct {
 	File        bool   `json:"file"`
 	Prime       bool   `json:"prime,omitempty"` // a reader detection under PrevLimit runs immediately before
 	PrevLimit   uint32 `json:"prev_limit,omitempty"`
+	ErrKind     int    `json:"err_kind,omitempty"` // index into c05Errs
 }
 
 var errC05 = errors.New("verif: injected read error")
+
+// c05Errs are the failures a reader can inject: a plain error, and errors of other types that
+// merely wrap (Unwrap) an end-of-input sentinel - a transport reporting "connection lost:
+// unexpected EOF" has failed, it has not reached the end of the input.
+type c05Wrapped struct{ inner error }
+
+func (e *c05Wrapped) Error() string { return "verif: connection reset: " + e.inner.Error() }
+func (e *c05Wrapped) Unwrap() error { return e.inner }
+
+var c05Errs = []error{errC05, &c05Wrapped{io.ErrUnexpectedEOF}, &c05Wrapped{io.EOF}, &fs.PathError{Op: "read", Path: "verif", Err: io.ErrUnexpectedEOF}, fmt.Errorf("verif: short body: %w", io.ErrUnexpectedEOF)}
+
+func (c *c05Case) err() error { return c05Errs[c.ErrKind%len(c05Errs)] }
 
 type c05Reader struct {
 	c       *c05Case
@@ -52,7 +66,7 @@ func (r *c05Reader) Read(p []byte) (int, error) {
 	}
 	if r.off >= end {
 		if r.c.FaultAt >= 0 && r.off >= r.c.FaultAt {
-			return 0, errC05
+			return 0, r.c.err()
 		}
 		return 0, io.EOF
 	}
@@ -76,7 +90,7 @@ func (r *c05Reader) Read(p []byte) (int, error) {
 	if r.off == end {
 		if r.c.FaultAt >= 0 && end == r.c.FaultAt {
 			if r.c.FaultData {
-				return n, errC05
+				return n, r.c.err()
 			}
 		} else if r.c.EOFWithData {
 			return n, io.EOF
@@ -106,13 +120,10 @@ func c05Check(c c05Case) vfResult {
 	want := Detect(x)
 	r.Hash = vfHash(x, vfHashU(uint64(c.Limit), uint64(c.FaultAt+1), uint64(len(c.Chunks))), []byte(fmt.Sprint(c.Chunks, c.EOFWithData, c.FaultData, c.File, c.Prime, c.PrevLimit)))
 	if c.File {
-		p := filepath.Join(vfScratchDir(), "c05.bin")
-		if err := os.WriteFile(p, x, 0o644); err != nil {
-			panic(err)
-		}
+		p := vfWriteFile("c05", x, vfHash(x, vfHashU(uint64(c.Limit))))
 		got, err := DetectFile(p)
 		if err != nil || !c05Same(got, want) {
-			r.Err = fmt.Errorf("DetectFile = (%s, %v), Detect = %s; limit %d x=%s", vfChainStr(got), err, vfChainStr(want), c.Limit, vfQ(x))
+			r.Err = fmt.Errorf("DetectFile(%s) = (%s, %v), Detect = %s; limit %d x=%s", p, vfChainStr(got), err, vfChainStr(want), c.Limit, vfQ(x))
 		}
 		r.Labels = append(r.Labels, "file")
 		r.Nontrivial = c.Limit > 0 && int(c.Limit) <= len(x)
@@ -153,7 +164,7 @@ func c05Check(c c05Case) vfResult {
 	case needAll || c.FaultAt < int(c.Limit):
 		// failure before the header is complete
 		r.Labels = append(r.Labels, "fault-before-complete")
-		if err == nil || !errors.Is(err, errC05) {
+		if err == nil || !errors.Is(err, c.err()) {
 			r.Err = fmt.Errorf("reader failed after %d bytes (header incomplete: limit %d, len %d) but DetectReader returned error %v and %s", c.FaultAt, c.Limit, len(x), err, vfChainStr(got))
 			return r
 		}
@@ -165,7 +176,7 @@ func c05Check(c c05Case) vfResult {
 		// the failure coincides with / follows completion of the header: either outcome is allowed
 		r.Labels = append(r.Labels, "fault-at-completion")
 		okNormal := err == nil && c05Same(got, want)
-		okErr := err != nil && errors.Is(err, errC05) && c05IsErrMIME(got)
+		okErr := err != nil && errors.Is(err, c.err()) && c05IsErrMIME(got)
 		if !okNormal && !okErr {
 			r.Err = fmt.Errorf("fault at %d with limit %d: got (%s, %v); want the normal result %s or octet-stream with the injected error", c.FaultAt, c.Limit, vfChainStr(got), err, vfChainStr(want))
 			return r
@@ -211,6 +222,7 @@ func c05Gen(t *rapid.T) c05Case {
 			}
 			c.FaultAt = rapid.IntRange(0, hi).Draw(t, "faultat")
 			c.FaultData = rapid.Bool().Draw(t, "faultdata")
+			c.ErrKind = rapid.IntRange(0, len(c05Errs)-1).Draw(t, "errkind")
 		}
 		return c
 	}
@@ -246,6 +258,7 @@ func c05Gen(t *rapid.T) c05Case {
 		}
 		c.FaultAt = rapid.IntRange(0, hi).Draw(t, "faultat")
 		c.FaultData = rapid.Bool().Draw(t, "faultdata")
+		c.ErrKind = rapid.IntRange(0, len(c05Errs)-1).Draw(t, "errkind")
 	case 1:
 		c.File = rapid.Bool().Draw(t, "file")
 	}
